@@ -12,7 +12,7 @@ from vlib.cassettes import open_box
 from vlib.programs import (gen_program, Built, World, describe, playback_function_for, clone, canon, call_outcome, outcome_teq, Outcome)
 from vlib.refmodels import ref_input_policy
 from vlib.spies import SpyCassette
-from vlib.values import teq, in_domain
+from vlib.values import recording_in_domain, teq, in_domain
 
 PROPERTY = 'C02'
 LEVEL = 'exploration'
@@ -59,8 +59,7 @@ class ReplaySession(object):
         if self.ok:
             self.rid = saves[0][2]
             ro = self.spy.recordings[saves[0][1]]
-            self.ok = in_domain({'recording_data': ro.recording_data, 'recording_metadata': ro.recording_metadata}) and \
-                in_domain(dict(ro.recording_data, _metadata=ro.recording_metadata))
+            self.ok = recording_in_domain(ro.recording_data, ro.recording_metadata)
         self.kind = kind
 
     def close(self):
